@@ -1,3 +1,18 @@
-From Sigtools.Model Require Import Base Bind Algebra.
-Theorem C02_placeholder : True. Proof. exact I. Qed.
-Print Assumptions C02_placeholder.
+(* C02 — embed: result = calling outer, which forwards *args/**kwargs to inner. *)
+From Sigtools.Model Require Import Base Bind Roles Algebra.
+From Sigtools.Proofs Require Import SmallModel Basics.
+
+(* every result of embed went through the validating constructor *)
+Theorem C02_wf ss uva uvk r : embed ss uva uvk = Ok r -> validate (params r) = true.
+Proof. exact (embed_wf ss uva uvk r). Qed.
+Print Assumptions C02_wf.
+
+(* embed fails only with IncompatibleSignatures / ValueError, for all inputs *)
+Theorem C02_only_value_errors s0 ss uva uvk : benign (embed (s0 :: ss) uva uvk).
+Proof. exact (embed_only_value_errors s0 ss uva uvk). Qed.
+Print Assumptions C02_only_value_errors.
+
+(* acceptance of any call is decided on the finite family of shapes the deciders enumerate *)
+Theorem C02_small_model sigs s c : In s sigs -> accepts s (rep_for sigs c) = accepts s c.
+Proof. exact (accepts_rep sigs s c). Qed.
+Print Assumptions C02_small_model.
